@@ -2,14 +2,15 @@
 // shim/data_domain.rs -- TRUSTED.  What the extracted code of abstract_domain/data.rs, data/trait_impl.rs and
 // data/conditional_specialization.rs (unit `data_domain`, properties C03 / C04) may assume about
 //   * the key type `AbstractIdentifier` (abstract_domain/identifier/mod.rs), kept opaque,
-//   * `BTreeMap::entry(..).and_modify(..).or_insert_with(..)`            (R9 target, no vstd specification),
 //   * `BTreeMap::values_mut()`                                            (R9 target, no vstd specification).
+// The R9 substitution of `entry(k).and_modify(f).or_insert_with(g)` in `merge` needs no target here: it is written with
+// contains_key / get_mut / insert (vstd) and keeps both closures verbatim and under verification (contracts/data_domain.vc).
 // `BTreeMap<AbstractIdentifier, T>` itself is NOT shimmed: the unit uses vstd's specifications of
 // std::collections::BTreeMap (view = Map<K, V>; new / clone / is_empty / get_mut / iter with its ghost sequence).
 // vstd states them under `vstd::laws_cmp::obeys_cmp::<K>()` ("Ord on K is a lawful total order that agrees with ==");
 // for K = AbstractIdentifier that is a HYPOTHESIS of the unit (`dd_id_ok`), not an axiom of this file.
-// `Option::{and_then, map, is_none, clone}`, `Result::ok`, `BTreeMap::{get, get_mut, insert, clone, is_empty, iter}` have vstd
-// specifications: nothing is added for them.  The third R9 substitution of the unit (filter_map(..).collect() in
+// `Option::{and_then, map, is_none, clone}`, `Result::ok`, `BTreeMap::{get, get_mut, insert, contains_key, clone, is_empty, iter}`
+// have vstd specifications: nothing is added for them.  The third R9 substitution of the unit (filter_map(..).collect() in
 // intersect_relative_values) is a plain loop and has no target here.
 // ---------------------------------------------------------------------------
 
@@ -27,28 +28,6 @@ impl Clone for AbstractIdentifier {
     #[verifier::external_body]
     fn clone(&self) -> (r: AbstractIdentifier) ensures r == *self { unimplemented!() }
 }
-
-/// R9 target for the statement
-///     MAP.entry(KEY).and_modify(|offset| *offset = offset.merge(OTHER)).or_insert_with(|| DEFAULT);
-/// std documentation: `entry(key)` "gets the given key's corresponding entry in the map for in-place manipulation";
-/// `Entry::and_modify(f)` "provides in-place mutable access to an occupied entry before any potential inserts into the
-/// map" (f is run on the stored value iff the key is present); `Entry::or_insert_with(default)` "ensures a value is in the
-/// entry by inserting the result of the default function if empty".  Specialised to the two closures of the pattern:
-///   key present  -> the stored value v becomes v.merge(OTHER)   (the call `offset.merge(OTHER)` of the first closure is
-///                   swallowed by the substitution, so its precondition is a precondition here),
-///   key absent   -> DEFAULT is inserted at the key.
-/// No other entry changes.  MAP, KEY, OTHER and DEFAULT are pattern holes (arguments); the text of the two closures is
-/// part of the pattern: a changed closure no longer matches and the run ends undecided.  DEFAULT (`OTHER.clone()` in
-/// /repo) is evaluated before the call instead of lazily; it is a clone, which has no effect besides its result.
-#[verifier::external_body]
-pub fn verif_btree_entry_merge_or_insert<K: Ord, T: AbstractDomain>(m: &mut BTreeMap<K, T>, key: K, other: &T, default: T)
-    requires
-        vstd::laws_cmp::obeys_cmp::<K>(),
-        old(m)@.contains_key(key) ==> old(m)@[key].merge_pre_spec(other),
-    ensures
-        final(m)@ == (if old(m)@.contains_key(key) { old(m)@.insert(key, old(m)@[key].merge_spec(other)) }
-                      else { old(m)@.insert(key, default) }),
-{ unimplemented!() }
 
 /// R9 target for  `for X in MAP.values_mut() { BODY }`: the keys of the map, each exactly once (ascending order).
 /// std documentation of `BTreeMap::values_mut`: "Gets a mutable iterator over the values of the map, in order by key":
